@@ -162,7 +162,8 @@ def run(facts, res):
         res.floor("E2", "make_diff_patch / apply_diff_patch", 0, 2)
     else:
         wtab = {}
-        for n, els, ln, bi in tables.array_literals(w):
+        from ..common import members_of as _mo16, inlined_sites as _is16
+        for n, els, ln, bi in [x_ for wm_ in _mo16(facts, w) for x_ in tables.array_literals(wm_)]:
             code = [x[2] for x in walk(els[0]) if x[0] == "const" and x[1] == "str"]
             kinds = []
             for e in els[1:]:
@@ -174,15 +175,13 @@ def run(facts, res):
         rtab = {}
         du = du_of(a)
         codes_tested = {}
-        for bi, t in a.calls():
-            c = t.callee
-            if c is None or c.name not in ("as_u64", "as_array", "as_i64", "as_str", "as_f64"):
-                continue
-            idx = tables.index_consts(du.operand_term(t.args[0], 10))
-            if idx == {0}:
+        for s_ in _is16(facts, a, lambda t: t.callee.name in ("as_u64", "as_array", "as_i64", "as_str", "as_f64") and bool(t.args)):
+            c = s_.term.callee
+            idx = tables.index_consts(s_.args[0])
+            if idx == {0} or not idx:
                 continue
             code = None
-            for l in lits_of(a, bi, facts):
+            for l in s_.lits:
                 if l.kind == "call" and callee_name(l.term) == "eq" and l.truth is True:
                     cs = [x[2] for arg in l.term[2] for x in walk(arg) if x[0] == "const" and x[1] == "str"]
                     if cs:
